@@ -621,6 +621,39 @@ func runFSInit(c *core.Ctx) {
 		})
 		okOrder := saveCall != nil && existsStore != nil && an.Reaches(layoutWrite, saveCall) && !an.Reaches(saveCall, layoutWrite) && an.Reaches(saveCall, existsStore) && !an.Reaches(existsStore, saveCall)
 		c.Check(okOrder, "initialiser-order:"+kn(c.P.FuncName(initFn)), initFn.Pos(), "the initialiser writes the layout file, then creates the index, then sets the exists flag: %v (a crash in between leaves a directory that the next start repairs instead of one that looks complete)", okOrder)
+		// repair: the layout file is rewritten whenever the content check that the openers apply rejects it —
+		// the write must be reachable from the rejecting edge of that verifier, called on the file's bytes
+		verifierUsed := map[*ssa.Function]bool{}
+		for _, fn := range c.P.Funcs("internal/store") {
+			an.Calls(fn, func(call ssa.CallInstruction) {
+				sc := call.Common().StaticCallee()
+				if sc == nil || core.FuncPkgPath(sc) != r.StorePath || sc.Signature.Results().Len() != 1 || len(call.Common().Args) != 1 {
+					return
+				}
+				if b, ok := sc.Signature.Results().At(0).Type().Underlying().(*types.Basic); !ok || b.Kind() != types.Bool {
+					return
+				}
+				if rc, idx := an.CallOf(an.Origin(call.Common().Args[0])); rc != nil && idx == 0 && an.IsFunc(rc, "os", "ReadFile") && hasPart(rc.Call.Args[0], layout) {
+					verifierUsed[sc] = true
+				}
+			})
+		}
+		repairOK := false
+		for _, b := range initFn.Blocks {
+			ifi := an.BlockIf(b)
+			if ifi == nil {
+				continue
+			}
+			call, trueSucc, ok := an.BoolCallTest(ifi)
+			if !ok || !verifierUsed[call.Call.StaticCallee()] {
+				continue
+			}
+			rej := b.Succs[1-trueSucc]
+			if rej == layoutWrite.Block() || an.BlockReaches(rej, layoutWrite.Block()) {
+				repairOK = true
+			}
+		}
+		c.Check(repairOK, "initialiser-repairs-layout:"+kn(c.P.FuncName(initFn)), layoutWrite.Pos(), "the initialiser rewrites the layout file on the rejecting edge of the same content check the openers apply (%d verifier function(s) found): %v — otherwise a layout file torn by a crash is never repaired and the repository is ignored after every restart", len(verifierUsed), repairOK)
 		if existsField == "" {
 			c.Unresolved("exists-flag:"+fam.Name, "the initialiser sets no boolean flag")
 			continue
@@ -870,7 +903,7 @@ func runFSCleanup(c *core.Ctx) {
 				if !ok || len(ret.Results) == 0 {
 					return
 				}
-				if h != nil && !inLoop(ret.Block()) && !an.IsNilConst(ret.Results[len(ret.Results)-1]) {
+				if h != nil && !inLoop(ret.Block()) && !retErrNil(ret) {
 					// a non-nil return after the loop must come from the loop's failure edge only
 					if !ret.Block().Dominates(ret.Block()) || !an.BlockReaches(h, ret.Block()) {
 						return
